@@ -110,15 +110,13 @@ def parseEdge (s : String) : Option (Nat × Nat) :=
 def mkGrid (k : GridKind) (torus : Bool) (cap : Option Nat) (dims : List Int) : Option Space :=
   if dims.all (· > 0) && (k != .hex || dims.length == 2) then
     let nd := dims.map Int.toNat
-    some { cells := allCoords nd, conn := gridConn k nd torus, cap := fun _ => cap, isGrid := true }
+    some (gridSpace k nd torus cap)
   else none
 
 def parseTri (s : String) : Option (Nat × Nat × Nat) :=
   match s.splitOn "," with
   | [a, b, c] => do pure (← a.toNat?, ← b.toNat?, ← c.toNat?)
   | _ => none
-
-def rangeCoords (n : Nat) : List Coord := (List.range n).map fun (i : Nat) => [(i : Int)]
 
 /-- scenario header → space (`some none`: the constructor raises ValueError) -/
 def parseScenario : List String → Option (Option Space)
@@ -134,7 +132,7 @@ def parseScenario : List String → Option (Option Space)
     let n ← n.toNat?
     let es ← edges.mapM parseEdge
     if es.all (fun (a, b) => a < n && b < n) then
-      pure (some { cells := rangeCoords n, conn := netConn d es, cap := fun _ => cap, isGrid := false })
+      pure (some (netSpace d n es cap))
     else none
   | "vor" :: cap :: n :: rest => do
     let cap ← parseOpt String.toNat? cap
@@ -145,7 +143,7 @@ def parseScenario : List String → Option (Option Space)
     let _ ← pts.mapM (fun p => parseCoord (p.drop 2).toString)
     let tris ← ts.mapM (fun t => parseTri (t.drop 2).toString)
     if tris.all (fun (a, b, c) => a < n && b < n && c < n) then
-      pure (some { cells := rangeCoords n, conn := vorConn tris, cap := fun _ => cap, isGrid := false })
+      pure (some (vorSpace n tris cap))
     else none
   | _ => none
 
